@@ -19,7 +19,8 @@ fn variant_assert(out: &mut String, enum_ty: &str, variants: &std::collections::
     for (t, boxed) in variants {
         let tn = if t == "char" { "char".to_string() } else { rs_ident(t) };
         let inner = if *boxed { format!("Box<{tn}>") } else { tn };
-        out.push_str(&format!("        {}::{}(x) => {{ let _: &{} = x; }}\n", enum_ty, rs_ident(t), inner));
+        // (binding names that no rule can have: a unit struct named like a binding turns the pattern into a constant)
+        out.push_str(&format!("        {}::{}(vb_x__) => {{ let _: &{} = vb_x__; }}\n", enum_ty, rs_ident(t), inner));
     }
     out.push_str("    }\n");
 }
